@@ -522,29 +522,34 @@ def moduleHasCycle (p : GProg) (m : Nat) : Bool :=
 
 /-! ### `compiler.link`, `Module.Walk`, `Compile` -/
 
+/-- `FunctionSpec.Link` for every function of service `(m, n)`, in the caller's order -/
+def linkFuncsOf (fuel : Nat) (p : GProg) (o : Orders) (m : Nat) (n : Name) (σ : St) : Res St :=
+  match lookupService p m n with
+  | some s =>
+    forEach (fun fname σ'' =>
+        match findFunc fname s.funcs with
+        | some g => linkFunc fuel p m n g σ''
+        | none => .ok σ'')
+      (applyOrder (alookup n (o.at m).funcs |>.getD []) (s.funcs.map (·.name))) σ
+  | none => .ok σ
+
+/-- what `CompileWithLinkOrder` does before linking the services of a module: the functions
+of all its services, service by service (nothing without `pre`) -/
+def prelinkFuncs (fuel : Nat) (p : GProg) (o : Orders) (pre : Bool) (m : Nat) (svcs : List Name) (σ : St) : Res St :=
+  if pre then forEach (fun n σ' => linkFuncsOf fuel p o m n σ') svcs σ else .ok σ
+
 /-- `compiler.link(m)` with visit orders `o`. With `pre` (what `CompileWithLinkOrder` does
 before the normal pass) the functions of the module's services are linked before the
 services themselves, so that their order is the caller's too. -/
 def linkModule (fuel : Nat) (p : GProg) (o : Orders) (pre : Bool) (m : Nat) (σ : St) : Res St :=
-  let md := modAt p m
-  match forEach (fun n σ' => linkNamed fuel p m n σ') (applyOrder (o.at m).types (md.types.map (·.1))) σ with
+  match forEach (fun n σ' => linkNamed fuel p m n σ') (applyOrder (o.at m).types ((modAt p m).types.map (·.1))) σ with
   | .ok σ1 =>
-    match forEach (fun n σ' => linkConst fuel p m n σ') (applyOrder (o.at m).consts (md.consts.map (·.1))) σ1 with
+    match forEach (fun n σ' => linkConst fuel p m n σ') (applyOrder (o.at m).consts ((modAt p m).consts.map (·.1))) σ1 with
     | .ok σ2 =>
-      let svcs := applyOrder (o.at m).services (md.services.map (·.1))
-      match (if pre then
-              forEach (fun n σ' =>
-                match lookupService p m n with
-                | some s =>
-                  forEach (fun fname σ'' =>
-                      match findFunc fname s.funcs with
-                      | some g => linkFunc fuel p m n g σ''
-                      | none => .ok σ'')
-                    (applyOrder (alookup n (o.at m).funcs |>.getD []) (s.funcs.map (·.name))) σ'
-                | none => .ok σ') svcs σ2
-             else .ok σ2) with
+      match prelinkFuncs fuel p o pre m (applyOrder (o.at m).services ((modAt p m).services.map (·.1))) σ2 with
       | .ok σ3 =>
-        match forEach (fun n σ' => linkService fuel p o m n σ') svcs σ3 with
+        match forEach (fun n σ' => linkService fuel p o m n σ')
+            (applyOrder (o.at m).services ((modAt p m).services.map (·.1))) σ3 with
         | .ok σ4 => if moduleHasCycle p m then .err else .ok σ4
         | .err => .err
         | .fuel => .fuel
